@@ -416,3 +416,25 @@ def instrument(loc, cut_loops=(), rebind=None, comprehensions=False, genexps=Fal
     tr.stats['n_loops'] = n_loops
     tr.stats['stmts_lowered'] = tr.stats['stmts_read'] - tr.stats['dropped_docstrings'] - tr.stats['dropped_log_calls']
     return code, tr.stats, ast.unparse(mod)
+
+
+def class_constants(spec, repo=None):
+    """{name: value} for the simple constant assignments in the body of the class `path::Class` (read from the tree):
+    stub `cls` / `self` objects expose them, so an edit that introduces a class-level constant stays inside the subset"""
+    path, qual = spec.split('::')
+    src, tree = _parse(path, repo)
+    body = tree.body
+    node = None
+    for part in qual.split('.'):
+        node = next((n for n in body if isinstance(n, ast.ClassDef) and n.name == part), None)
+        if node is None:
+            return {}
+        body = node.body
+    out = {}
+    for st in node.body:
+        if isinstance(st, ast.Assign) and len(st.targets) == 1 and isinstance(st.targets[0], ast.Name):
+            try:
+                out[st.targets[0].id] = ast.literal_eval(st.value)
+            except Exception:
+                pass
+    return out
